@@ -265,6 +265,22 @@ func IsLowerASCII(s string) bool {
 	return true
 }
 
+// Arbitrary fills *p from the scenario values tagged <tag>.<Type>.<field path>.
+func Arbitrary(p interface{}, tag string) {
+	rv := reflect.ValueOf(p).Elem()
+	pfx := tag + "." + rv.Type().Name()
+	var paths []string
+	for t := range w.sc.Nondet {
+		if strings.HasPrefix(t, pfx+".") || strings.HasPrefix(t, pfx+"[") {
+			paths = append(paths, t)
+		}
+	}
+	sort.Strings(paths)
+	for _, t := range paths {
+		setPath(rv, t[len(pfx):], w.sc.Nondet[t])
+	}
+}
+
 func Deref(p interface{}) interface{} { return reflect.Indirect(reflect.ValueOf(p)).Interface() }
 
 func Assume(b bool) {
